@@ -2,7 +2,7 @@
    MapProofs and WorldProofs; the Prop_Cxx.v files restate them and close them by [exact]. *)
 From stdpp Require Import gmap list.
 From Coq Require Import NArith Lia.
-From G Require Import Arith Monad Types Inv Raw RawProofs Map MapProofs IterProofs CloneProofs Cost EntryProofs EntryCost Ledger SetProofs Fill WorldProofs.
+From G Require Import Arith Monad Types Inv Raw RawProofs Map MapProofs IterProofs CloneProofs Cost EntryProofs EntryCost Ledger SetProofs Conserve Fill WorldProofs.
 Local Open Scope N_scope.
 
 (* every world reachable by a history of (so far: core) operations, from the empty world *)
@@ -769,6 +769,23 @@ Proof.
   intros Hl E. pose proof (map_drain_filter_conserves_keys c take delta j forget s Hl) as H.
   unfold wpp in H. rewrite E in H. exact H.
 Qed.
+
+(* calls that take objects in.  insert: the key object given is afterwards stored or dropped, the
+   value given is stored, the value it displaced is handed back; extend: every key and value of
+   the items is afterwards stored or dropped (a key whose key was present, a displaced value) -
+   each object exactly once, whatever growing and moving the call performs *)
+Lemma T_C06_insert_conserves c k kid v s o s' :
+  Inv (cR c) (cesz c) (s_rt s) -> map_insert c k kid v s = Ok o s' ->
+  Inv (cR c) (cesz c) (s_rt s') /\
+  dks s' ++ map ekid (elems (s_rt s')) ≡ₚ kid :: dks s ++ map ekid (elems (s_rt s)) /\
+  match o with Some v0 => [v0] | None => [] end ++ dvs s' ++ map ev (elems (s_rt s')) ≡ₚ v :: dvs s ++ map ev (elems (s_rt s)).
+Proof. apply map_insert_conserves. Qed.
+Lemma T_C06_extend_conserves c items hint s u s' :
+  Inv (cR c) (cesz c) (s_rt s) -> hint <= usize_max -> map_extend c items hint s = Ok u s' ->
+  Inv (cR c) (cesz c) (s_rt s') /\
+  dks s' ++ map ekid (elems (s_rt s')) ≡ₚ kids_of items ++ dks s ++ map ekid (elems (s_rt s)) /\
+  dvs s' ++ map ev (elems (s_rt s')) ≡ₚ vals_of items ++ dvs s ++ map ev (elems (s_rt s)).
+Proof. apply map_extend_conserves. Qed.
 
 (* the hypothesis [lite] holds in every reachable state: it is part of the invariant *)
 Lemma T_C06_lite_reachable R Esz s : Inv R Esz (s_rt s) -> lite s.
